@@ -238,8 +238,10 @@ theorem slice_eq_filter (l : List InEdge) (hs : SortedBySrc l) (n : Nat) :
     intro x _
     by_cases hx : x.src = n
     · simp [hx]
-    · have : ¬ (x.src < n + 1 ∧ n ≤ x.src) := by omega
-      simp [hx]; omega
+    · have h3 : (x.src == n) = false := by simp [hx]
+      rw [h3]
+      simp only [Bool.and_eq_false_iff, decide_eq_false_iff_not]
+      omega
   -- lengths
   have hlen : cntLt l (n + 1) = cntLt l n + (l.filter (fun e => e.src == n)).length := by
     unfold cntLt
@@ -275,7 +277,6 @@ theorem map_range'_getD {α : Type} (l : List α) (d : α) (b k : Nat) (h : b + 
     have hb : b < l.length := by omega
     rw [List.range'_succ, List.map_cons, ih (b + 1) (by omega)]
     rw [getD_eq _ _ _ hb]
-    rw [List.drop_eq_getElem_cons hb]
-    simp
+    rw [List.drop_eq_getElem_cons hb, List.take_succ_cons]
 
 end Tbx.SG
